@@ -208,11 +208,12 @@ Lemma numpy_bytes_agree dt shape xs r :
   logical dt shape xs -> represents dt shape xs r -> good_numpy dt xs r /\ good_bytes dt xs r.
 Proof.
   intros [bw [H [R L]]] HR.
-  induction HR as [store E | bw' H' Hb | bw' H' Hb | | bw' es H' M C | es M C | bw' es H' M C F | M | M
+  induction HR as [store E | bw' H' Hb | bw' storage H' Hb EC | bw' H' Hb | | bw' es H' M C | es M C | bw' es H' M C F | M | M
                    | pre post len bw' H' HL | post len bw' H' HL | inner HR IH];
     try (pose proof (same_bw dt bw' bw H' H); subst bw').
   - subst xs. apply (array_good dt shape bw store H).
   - apply (torch_good dt shape bw xs H Hb).
+  - subst xs. apply (torch_conj_good dt shape bw storage H Hb).
   - apply (packed_good dt shape bw xs H Hb R L).
   - apply (proto_raw_good dt shape bw xs H R L).
   - apply (proto_int32_good dt shape bw xs es H R L M C).
@@ -238,14 +239,14 @@ Lemma tofile_agree dt shape xs r :
   forall env d, 0 < e_chunk env -> r_tofile env r d = Ok (write d (le_pack dt xs)).
 Proof.
   intros HLg HR env d Hc. pose proof HLg as [bw [H [R L]]].
-  induction HR as [store E | bw' H' Hb | bw' H' Hb | | bw' es H' M C | es M C | bw' es H' M C F | M | M
+  induction HR as [store E | bw' H' Hb | bw' storage H' Hb EC | bw' H' Hb | | bw' es H' M C | es M C | bw' es H' M C F | M | M
                    | pre post len bw' H' HL | post len bw' H' HL | inner HR IH];
     try (pose proof (same_bw dt bw' bw H' H); subst bw').
-  10: { cbn [r_tofile].
+  11: { cbn [r_tofile].
         apply (ext_tofile_ok dt bw shape xs pre post len H R L HL); [cbn; reflexivity | exact Hc]. }
-  10: { cbn [r_tofile].
+  11: { cbn [r_tofile].
         apply (ext_tofile_ok dt bw shape xs [] post len H R L HL); [reflexivity | exact Hc]. }
-  10: { cbn [r_tofile]. exact IH. }
+  11: { cbn [r_tofile]. exact IH. }
   all: match goal with |- r_tofile _ ?r _ = _ =>
          assert (HR' : represents dt shape xs r) by (econstructor; eassumption);
          destruct (numpy_bytes_agree dt shape xs r HLg HR') as [_ B];
@@ -392,15 +393,19 @@ Proof.
   destruct Hr as [<-|[<-|[<-|[]]]]; split; reflexivity.
 Qed.
 
-(* ------------------------------------------------------------------ lazily conjugated torch views (known finding) *)
+(* ------------------------------------------------------------------ lazily conjugated torch views *)
 
-(* numpy() of the adapter resolves the conjugation, tobytes() does not: the representation disagrees with itself *)
-Lemma torch_conj_refuted :
+(* before fix c3d2ba2: numpy() resolved the conjugation, tobytes() did not *)
+Lemma torch_conj_refuted_before_fix :
   exists dt shape storage xs,
     logical dt shape xs /\ r_numpy (RTorchConj dt shape storage) = Ok xs
-    /\ r_tobytes (RTorchConj dt shape storage) <> Ok (le_pack dt xs).
+    /\ tobytes_conj_before_fix dt storage <> Ok (le_pack dt xs).
 Proof.
   exists DT_COMPLEX64, [1], [1 + 2 ^ 32 * 2], [1 + 2 ^ 32 * 2 + 2 ^ 63].
   split; [exists 64; split; [reflexivity|]; split; [repeat constructor | reflexivity] |].
   split; [vm_compute; reflexivity | vm_compute; discriminate].
 Qed.
+
+Example ex_torch_conj :
+  represents DT_COMPLEX64 [1] [1 + 2 ^ 32 * 2 + 2 ^ 63] (RTorchConj DT_COMPLEX64 [1] [1 + 2 ^ 32 * 2]).
+Proof. apply (rep_torch_conj DT_COMPLEX64 [1] _ 64 [1 + 2 ^ 32 * 2]); [reflexivity | discriminate | vm_compute; reflexivity]. Qed.
